@@ -158,7 +158,8 @@ class LocalFileStore(Store):
         if not os.path.isdir(internal_dir):
             if create_dirs:
                 _logger.debug(f"Creating dir {internal_dir}")
-                os.makedirs(internal_dir)
+                # Another process may create the same directories at the same time.
+                os.makedirs(internal_dir, exist_ok=True)
             else:
                 raise DDSException(
                     f"Path {internal_dir} is not a directory",
@@ -167,7 +168,7 @@ class LocalFileStore(Store):
         if not os.path.isdir(data_dir):
             if create_dirs:
                 _logger.debug(f"Creating dir {data_dir}")
-                os.makedirs(data_dir)
+                os.makedirs(data_dir, exist_ok=True)
             else:
                 raise DDSException(
                     f"Path {data_dir} is not a directory",
@@ -175,7 +176,7 @@ class LocalFileStore(Store):
                 )
         p_blobs = os.path.join(self._root, "blobs")
         if not os.path.exists(p_blobs):
-            os.makedirs(p_blobs)
+            os.makedirs(p_blobs, exist_ok=True)
 
     def __repr__(self):
         return f"LocalFileStore(internal_dir={self._root} data_dir={self._data_root})"
